@@ -212,10 +212,8 @@ func c20Alphabet() []*sessmc.Event {
 func init() {
 	register("C20", core.LevelMC, runC20)
 	variantDefs["C20"] = func(cfg sessmc.Config) searchSpec {
-		logon := sessmc.EvLogon(0, 0, "")
-		if !cfg.Initiator {
-			logon = sessmc.EvIn("A", 0, false, fixscan.Field{108, "20"})
-		}
+		// the peer's Logon announces 20 s; an initiator (configured 30 s) and an overriding acceptor must ignore it
+		logon := sessmc.EvIn("A", 0, false, fixscan.Field{108, "20"})
 		return searchSpec{cfg: cfg, alphabet: c20Alphabet(), prefix: []*sessmc.Event{sessmc.EvConnect(), logon},
 			mons: func() []sessmc.Monitor { return []sessmc.Monitor{&c20Mon{}, &c04Mon{}} }, variant: "C20"}
 	}
